@@ -2003,8 +2003,8 @@ func genAgreement(fset *token.FileSet, f *ast.File, af absFile, tinfo *types.Inf
 		return ""
 	}
 	// data flow inside each generated function: a message the function allocates and returns has been handed to a
-	// call first (MsgRecv / Invoke fill it; otherwise the caller gets an empty message), and every named parameter
-	// is used (a message parameter that is never passed on is never sent)
+	// call first (MsgRecv / Invoke fill it; otherwise the caller gets an empty message). An unused parameter is
+	// deliberately NOT reported: naming the context of an unimplemented-server method changes no behaviour
 	for _, d := range f.Decls {
 		fd, ok := d.(*ast.FuncDecl)
 		if !ok || fd.Body == nil {
@@ -2027,11 +2027,8 @@ func genAgreement(fset *token.FileSet, f *ast.File, af absFile, tinfo *types.Inf
 			return true
 		})
 		passed := map[string]token.Pos{} // first position at which the name is an argument of a call
-		used := map[string]bool{}
 		ast.Inspect(fd.Body, func(n ast.Node) bool {
 			switch x := n.(type) {
-			case *ast.Ident:
-				used[x.Name] = true
 			case *ast.CallExpr:
 				for _, a := range x.Args {
 					if id, ok := a.(*ast.Ident); ok {
@@ -2065,15 +2062,6 @@ func genAgreement(fset *token.FileSet, f *ast.File, af absFile, tinfo *types.Inf
 		})
 		if bad != "" {
 			return bad, badLine
-		}
-		if fd.Type.Params != nil {
-			for _, fl := range fd.Type.Params.List {
-				for _, nm := range fl.Names {
-					if nm.Name != "_" && !used[nm.Name] {
-						return fmt.Sprintf("%s never uses its parameter %s (a message or context that is accepted and then dropped)", fd.Name.Name, nm.Name), fset.Position(nm.Pos()).Line
-					}
-				}
-			}
 		}
 	}
 	type row struct {
